@@ -17,7 +17,7 @@ GTimeU == << <<>>, Cp("s"), Cp("m"), Cp("h"), Cp("d") >>
 GTypeL == Cp("bcdpfls")
 GPerm == << Cp("000"), Cp("644"), Cp("0755"), Cp("7777"), Cp("-0644"), Cp("/222"), Cp("u+x"), Cp("-g=rw"), Cp("/a-w"),
             Cp("ugo=rwx"), Cp("'u=r'") >>
-GFmt == << Cp("%p\\n"), Cp("'%p %s\\n'"), Cp("\"[%{fid}]\\t%U:%G\\n\""), Cp("x"), Cp("'%%%A@\\101'"), Cp("%h/%f\\0") >>
+GFmt == << Cp("%p\\012"), Cp("'\\033[1m%f\\007'"), Cp("%p\\n"), Cp("'%p %s\\n'"), Cp("\"[%{fid}]\\t%U:%G\\n\""), Cp("x"), Cp("'%%%A@\\101'"), Cp("%h/%f\\0") >>
 
 \* cross product helper: all concatenations a \o b
 Cross(as, bs) == Flatten([i \in 1..Len(as) |-> [j \in 1..Len(bs) |-> as[i] \o bs[j]]])
